@@ -57,6 +57,31 @@ CHECKS['C04'] = dict(
     technique="TLA+ threshold life-cycle model + TLC exhaustive/simulated behaviours replayed into code + TLC trace validation",
     ref="DESIGN.md section 5 C04")
 
+CHECKS['C16'] = dict(
+    text=("TLC exhausts MC_Calibrate: every labelled multiset of up to 5 (thorough 6) validation distances over {0,1,2} "
+          "with both labels (heavy ties, conflicting duplicates, zeros) x strategy x beta^2 x min_rate, with the "
+          "invariants that an optimal achievable cut-off exists and that the finite candidate set is complete; every "
+          "state is realised on fitted ITML/MMC/SDML models with pairs whose learned distances tie bit-exactly, "
+          "calibrate_threshold is run, and TLC decides Calibrate!OptimalCounts for the stored threshold_ by exact "
+          "fraction comparison; random validation sets on arbitrary learned metrics, fit(calibration_params=...) and the "
+          "invalid-parameter table (ValueError before any fitting work) are validated the same way."),
+    note=("beta and min_rate are dyadic so the float comparisons of the code cannot disagree with the exact ones; "
+          "thresholds of +-infinity are legal stored values (the statement constrains what predicting with them attains)."),
+    technique="TLA+ definition of optimal cut-off, TLC-enumerated tie-rich cases replayed into code, TLC trace validation",
+    ref="DESIGN.md section 5 C16")
+CHECKS['C07'] = dict(
+    text=("TLC exhausts MC_Constraints over all label vectors of length <= 6 (thorough 7) on {-1,0,1,2}: the chunk "
+          "feasibility pre-check is equivalent to the existence of a valid chunking (brute force), existence conditions "
+          "for pairs, the k-NN triplet count; every enumerated label vector (and random vectors up to length 40) is fed "
+          "to the real Constraints helper with parameter settings and integer seeds, points on an integer grid with "
+          "duplicates; TLC validates every call with TR_Constraints: pair soundness / no repeats / counts / same_length "
+          "/ warning, chunk validity or ValueError, k-nearest sets with existential ties, every combination exactly "
+          "once, caller-frame indices, seed reproducibility, wrap_pairs."),
+    note=("'No pair is repeated' is read on ordered index pairs (what the statement's mechanism guarantees); cases "
+          "outside the stated quantifier are recognised by the spec (InQuantifier*) and only counted."),
+    technique="TLA+ set-level specification of constraint soundness, TLC-enumerated label vectors replayed into code, TLC trace validation",
+    ref="DESIGN.md section 5 C07")
+
 NOT_YET = {}
 
 def main():
